@@ -166,6 +166,10 @@ func (o *Oracle) judgeL1(e *Exchange) {
 	if path == "/ping" {
 		return
 	}
+	if e.Status == 400 && strings.HasPrefix(string(e.RespBody), "400 Bad Request") {
+		o.res.probe("malformed_request_rejected_by_net_http")
+		return // net/http's own answer to a malformed request: it never reached sso-proxy
+	}
 	pol := o.m.Route(e.Host)
 	o.monitorSealed(e)
 	if pol == nil {
@@ -416,7 +420,66 @@ func (o *Oracle) judgeRefusal(e *Exchange, pol *Policy, sv *sessionVerdict, skip
 		case "":
 			o.res.cover(key + "|refused-after-ok")
 		}
+		if first == "" || (first == "denied" && firstEP == "profile") {
+			o.judgeRuleRefusal(e, pol, sv, due)
+		}
+	} else if due == "" {
+		o.judgeRuleRefusal(e, pol, sv, "nodue")
 	}
+}
+
+// judgeRuleRefusal: C11.A2 (⇐): a live, correctly bound session whose user the documented
+// any-of rule admits must keep being served while the facts are unchanged.
+func (o *Oracle) judgeRuleRefusal(e *Exchange, pol *Policy, sv *sessionVerdict, when string) {
+	S := sv.S
+	for _, c := range e.Children {
+		if c.Injected != "" || c.Err != "" {
+			return
+		}
+	}
+	if e.Status == 0 || e.Status == 301 || e.Err != "" || o.abs(e.Done).After(S.LifetimeDeadline.Add(-2*margin)) {
+		return // (301 is the router's path-cleaning redirect: neither served nor refused)
+	}
+	path, _, _ := requestPath(e.Target)
+	switch path {
+	case "/oauth2/callback", "/oauth2/sign_out", "/robots.txt", "/oauth2/v1/certs":
+		return
+	}
+	groupsNow := S.Groups
+	if c := firstChild(e, "profile"); c != nil && c.Status == 200 {
+		groupsNow = classifyL2("profile", c, pol.Groups).groups
+	}
+	inGroup := func(g string) bool { return contains(groupsNow, g) }
+	if !pol.Admits(S.Email, inGroup) {
+		o.res.cover("C11.A2|refused-rightly|" + when)
+		return
+	}
+	var rules, sat []string
+	addrP := &Policy{Addresses: pol.Addresses}
+	domP := &Policy{Domains: pol.Domains}
+	if len(pol.Addresses) > 0 {
+		rules = append(rules, "addr")
+		if addrP.EmailRuleAdmits(S.Email) {
+			sat = append(sat, "addr")
+		}
+	}
+	if len(pol.Domains) > 0 {
+		rules = append(rules, "dom")
+		if domP.EmailRuleAdmits(S.Email) {
+			sat = append(sat, "dom")
+		}
+	}
+	if len(pol.Groups) > 0 {
+		rules = append(rules, "grp")
+		for _, g := range pol.Groups {
+			if inGroup(g) {
+				sat = append(sat, "grp")
+				break
+			}
+		}
+	}
+	o.violate(e, "C11.A2-same-verdict-later", fmt.Sprintf("%q (groups %v) satisfies %v of the configured rules %v but the request was refused with %d (%s)", S.Email, groupsNow, sat, rules, e.Status, when),
+		"direction", "wrongly-refused", "rules", strings.Join(rules, "+"), "satisfied", strings.Join(sat, "+"), "when", ternary(when == "nodue", "nodue", "check-due"))
 }
 
 // cleanExcept reports that no fault other than the answer of endpoint ep touched this request.
